@@ -7,7 +7,7 @@ from symex.core import And, Or, Not, Implies, Iff, count_true, same_float, same_
 
 class H:
     def __init__(self, name, fn, quick, thorough, cover=(), doc='', float_model='-', assumptions=(),
-                 slice_s=25, query_timeout_ms=120000, logic=None):
+                 slice_s=8, query_timeout_ms=120000, logic=None):
         self.logic = logic
         self.name, self.fn, self.quick, self.thorough = name, fn, quick, thorough
         self.cover = list(cover)
